@@ -66,6 +66,10 @@ FAULT_ERRNOS = [
 ]
 
 
+class ProcessKilled(BaseException):
+    """The simulated process was hard-killed: no handler gets to touch the disk again."""
+
+
 def injected_oserror(code, rel):
     e = OSError(code, os.strerror(code) + " [ekosim injected]", rel)
     e.ekosim_injected = True
@@ -279,6 +283,7 @@ class Seams:
         self.fdpaths = {}
         self.faults_fired = []
         self.fs_faults_enabled = True
+        self.dead = False
         # virtual clock state
         self._epoch = 1.0e9 + self.d.uniform("clock:epoch", 0, 1.0e9)
         self._mono = self.d.uniform("clock:mono0", 0, 1.0e6)
@@ -316,10 +321,19 @@ class Seams:
     # ----------------------------------------------------------------- events
     def event(self, kind, rel, detail=""):
         """Record an event; return the planned fault for this site (or None)."""
+        if self.dead:
+            # after a hard kill nothing of the session reaches the disk any more
+            # (exception handlers and finalizers included)
+            raise ProcessKilled(f"ekosim: process is dead ({kind} {rel})")
         ev = self.trace.add(kind, rel, detail)
         if not self.fs_faults_enabled:
             return None
-        return self.plan.match(ev)
+        f = self.plan.match(ev)
+        if f is not None and f.get("kind") == "kill":
+            self.fired(f, kind, rel)
+            self.dead = True
+            raise ProcessKilled(f"ekosim: process killed at {kind} {rel}")
+        return f
 
     def fired(self, fault, kind, rel):
         rec = dict(fault)
